@@ -142,7 +142,20 @@ def cube_rules(prog, rep):
     sc = attrs.get("scaffold")
     rsc = per_dim_tuple(sc, I, [ss]) if sc is not None else None
     ok_sc = rsc is not None and rsc[0].op == "call" and tm.callee_name(rsc[0]) == "builtins.slice" and rsc[0].args[1] == (tm.NONE,)
-    rep.check(ok_sc, "R-C13-a", where, "scaffold = slice(None) per extra axis", "", "scaffold is %s" % (sc and tm.show(sc)[:60]))
+    if not ok_sc and sc is not None:
+        # (slice(None),) * len(<extra-axes shape>): the same tuple written as a repetition
+        for a in tm.alts(sc):
+            if a.op == "binop" and a.args[0] == "*":
+                for tup, cnt in ((a.args[1], a.args[2]), (a.args[2], a.args[1])):
+                    if tup.op == "tuple" and len(tup.args) == 1 and tup.args[0].op == "call" and tm.callee_name(tup.args[0]) == "builtins.slice" and tup.args[0].args[1] == (tm.NONE,) \
+                            and cnt.op == "call" and tm.callee_name(cnt) == "builtins.len" and cnt.args[1] and (cnt.args[1][0] == ss or ss in tm.alts(cnt.args[1][0]) or cnt.args[1][0] in tm.alts(ss)):
+                        ok_sc = True
+    if ok_sc:
+        rep.proved("R-C13-a", where, "scaffold = slice(None) per extra axis", "")
+    elif sc is not None and any(tm.contains(a, lambda x: x.op == "call" and tm.callee_name(x) == "builtins.slice" and x.args[1] == (tm.NONE,)) for a in tm.alts(sc)):
+        rep.undecided("R-C13-a", where, "scaffold = slice(None) per extra axis", "scaffold is built from slice(None), but not in a recognised per-axis form: %s" % tm.show(sc)[:70])
+    else:
+        rep.check(ok_sc, "R-C13-a", where, "scaffold = slice(None) per extra axis", "", "scaffold is %s" % (sc and tm.show(sc)[:60]))
     for name, want in (("marginless", "slice(0,-1)"), ("corner", "-1")):
         v = attrs.get(name)
         ok = False
